@@ -102,7 +102,7 @@ def check_input(O, S, leafmap):
     # "equality when transfers are forbidden": the general solver at hgt = inf returns the LCA reconciliation and nothing else,
     # under both policies and for unit losses as well as dear ones (3, 4: a loss term that is right only at loss = 1 shows)
     if len(O.leaves) <= 4 and len(S.leaves) <= 4:
-        for costs in ((0, 1, INF, 1, 1), (0, 5, INF, 4, 1), (0, 2, INF, 3, 1)):
+        for costs in ((0, 1, INF, 1, 1), (0, 5, INF, 4, 1), (0, 2, INF, 3, 1), (0, 1, INF, 0, 1), (0, 2, INF, 0, 3)):
             inp4, onode4, snode4 = A.build_input(O, S, leafmap, costs)
             wantc = mine[0] * costs[1] + mine[1] * costs[3]
             for policy in ("ANY", "ALL"):
@@ -111,6 +111,14 @@ def check_input(O, S, leafmap):
                     got = [(A.mapping_of(o, onode4, snode4), A.impl_cost(o.cost())) for o in outs]
                 except Exception as exc:
                     return ("exception", f"reconcile_thl/{policy} raised {type(exc).__name__}: {exc} at costs {A.costs_to_json(costs)}"), True
+                if costs[3] == 0:
+                    # free losses: the LCA reconciliation is a minimum but not the only one; every returned reconciliation must
+                    # cost what it costs, and the LCA mapping must be among the ALL results (segmental losses priced apart)
+                    if not got or any(g[1] != wantc for g in got) or (policy == "ALL" and want not in [g[0] for g in got]):
+                        return ("thl_at_inf", f"general solver at hgt = inf, free full losses, policy {policy}, costs "
+                                              f"{A.costs_to_json(costs)}: returns {[(sorted(g[0].items(), key=str), g[1]) for g in got][:2]}, "
+                                              f"the LCA reconciliation costs {wantc}"), True
+                    continue
                 if [g[0] for g in got] != [want] or got[0][1] != wantc:
                     return ("thl_at_inf", f"general solver at hgt = inf, policy {policy}, costs {A.costs_to_json(costs)}: returns "
                                           f"{[(sorted(g[0].items(), key=str), g[1]) for g in got][:2]}, expected exactly the LCA "
